@@ -357,6 +357,20 @@ def step (st : St) (line : String) : St × List String :=
       let (rows', refuse) := checkHardForks forks cur synced rows
       (st, [(if refuse then "refuse" else "accept") ++ (String.join (rows'.map fun r => " " ++ toString r.1 ++ ":" ++ toString r.2))])
     | _ => (st, ["bad-op"])
+  | "assetrates" :: rest =>
+    -- assetrates <height> <no> {name value}* <ns> {name value}*   (the era decides V0 / later rule)
+    let p : Parser (Nat × List (String × Nat) × List (String × Nat)) := do
+      let h ← nat
+      let o ← counted (do let a ← tok; let v ← nat; pure (a, v))
+      let s ← counted (do let a ← tok; let v ← nat; pure (a, v))
+      pure (h, o, s)
+    match p.run rest with
+    | some ((h, o, s), []) =>
+      let r := if h < st.P.act.devRewards then assetRatesV0 o s else assetRates st.P h o s
+      (st, [match r with
+            | none => "err"
+            | some l => "ok " ++ toString l.length ++ String.join (l.map fun x => " " ++ x.1 ++ " " ++ toString x.2)])
+    | _ => (st, ["bad-op"])
   | "json" :: rest =>
     (st, [Codec.runLine rest])
   | _ => (st, ["bad-op"])
